@@ -1608,6 +1608,14 @@ impl World {
                     self.fail(&["C03"], format!("resize that left {l} elements still pending after {n} key-adding calls"));
                 }
             }
+            // `remove` / `drain_filter` that take the last element out of the old table release it at once
+            if matches!(op, Op::Remove { .. } | Op::DrainFilter { .. }) && panic_kind.is_none() {
+                if let (Some(p), Some((0, ..))) = (&pre, po.old) {
+                    if matches!(p.old, Some((l, ..)) if l > 0) {
+                        self.fail(&["C03"], format!("{} removed the last element of the old table but the table is still allocated", kind));
+                    }
+                }
+            }
             // calls that leave the map empty by construction leave it with one table
             if matches!(op, Op::Clear | Op::Drain { forget: false, .. }) && po.old.is_some() && panic_kind.is_none() {
                 self.fail(&["C03"], format!("after {} the old table is still allocated", kind));
